@@ -47,4 +47,55 @@ PROPS = {
         ],
         "assumptions": ["memory driver: every method body runs under the store mutex (C10 LockShape fact)"],
     },
+    "C12": {
+        "harness": "c12",
+        "imports": ["Base", "Nonce", "Store", "Check12"],
+        "case_type": "c12_case",
+        "check": "c12_check",
+        "mismatch_is_violation": True,
+        "theories": ["theories/Base.v", "theories/Nonce.v", "theories/Store.v", "theories/StoreProofs.v"],
+        "check_theories": ["theories/Check12.v"],
+        "level_text": "The documented Store contract is an executable Gallina model (coq/theories/Store.v); Coq theorems "
+                      "state, for every reachable state and operation, the contract facts the property names "
+                      "(unregistered nodes are errors and change nothing, balances follow the wallet once linked with the "
+                      "trial credit migrated exactly once, active-host queries honour flag/kind/recency/limit, "
+                      "statistics equal the true counts and sums, the state invariant). Each driver is tied to that one "
+                      "model on every run by in-kernel evaluation of the model on the operation sequences the real "
+                      "memory and badger drivers executed; a disagreement is a concrete failing history.",
+        "level_note": "Trusted: Coq kernel; the harness's rendering of observations; clock values read back from the "
+                      "driver (UpdateNodePeers) or bracketed (other reads; stored timestamps are kept away from window "
+                      "edges by construction). The two drivers are not themselves translated to Coq: their agreement "
+                      "with the model is established by the correspondence on generated histories (bounded), the "
+                      "contract facts by proof (unbounded).",
+        "technique": "Coq proof over an executable contract model + vm_compute differential check of both drivers",
+        "rule": "store-level operation sequences of 12-39 operations over 4 node ids, 3 wallets, the empty id and an "
+                "unknown id, all 16 operations (incl. re-linking, negative and multi-word amounts, limits 0..5, time "
+                "advances around the 120 s window, reopen), each executed on the real memory and badger drivers; "
+                "distinct by rendered term",
+        "trusted": ["ActiveHosts selections are compared by predicate (subset of eligible, no duplicates, exact length), "
+                    "other id lists as multisets"],
+    },
+    "C11": {
+        "harness": "c11",
+        "imports": ["Base", "Nonce", "Store", "Check12"],
+        "case_type": "c12_case",
+        "check": "c12_check",
+        "mismatch_is_violation": True,
+        "theories": ["theories/Base.v", "theories/Nonce.v", "theories/Store.v", "theories/StoreProofs.v",
+                     "theories/PeersProofs.v"],
+        "check_theories": ["theories/Check12.v"],
+        "level_text": "Coq theorems over the contract model's UpdateNodePeers for every state, report and instant: the "
+                      "declared-invalid set is exactly the candidates whose judged timestamp is outside the window, the "
+                      "kept set exactly the rest, live reported peers are never declared, unknown ids are never tracked "
+                      "or declared (history invariant), duplicates/order irrelevant. Tied to both real drivers by "
+                      "in-kernel evaluation of the model on keep-alive histories they executed, plus an independent "
+                      "recomputation of the expected sets from the LastSeen values the driver reports.",
+        "level_note": "Trusted: Coq kernel; the VerifShiftTime hook standing for elapsed wall-clock time (both shift "
+                      "every stored timestamp; the model's Advance does the same); clock values read back from the driver.",
+        "technique": "Coq proof (exact characterisation + history invariant) + vm_compute correspondence on both drivers",
+        "rule": "keep-alive histories of a node and three peers (3-8 rounds; peers check in or not, gaps of "
+                "20/59/61/100/119/121/240 s, reports with omissions, duplicates, the unknown id and the node itself, "
+                "late registrations), both drivers; distinct by rendered term",
+        "trusted": [],
+    },
 }
